@@ -487,7 +487,10 @@ instance (σ : State) (a : Nat) : Decidable (σ.holds a) := by
 
 /-- is the call inside the documented domain of the client program? (objects of
 the right kind, `init`/bitwise overwrite only of objects that hold nothing,
-`size_t` arguments, an external buffer that has room for `nm * sz` bytes) -/
+`size_t` arguments, an external buffer that has room for `nm * sz` bytes; a
+bitwise copy lands at an address other than the one stamped in the copied bytes
+— copying a relocated object back to its old home is indistinguishable from
+never having moved it and is not a case of C20) -/
 def Op.dom (σ : State) : Op → Prop
   | .gInit a | .gGet a => σ.is a .guarded
   | .gSet a p => σ.is a .guarded ∧ p < W
@@ -511,7 +514,8 @@ def Op.dom (σ : State) : Op → Prop
   | .aAt a i => σ.is a .array ∧ i < W
   | .aSlice a b e s => σ.is a .array ∧ σ.is s .array ∧ b < W ∧ e < W
   | .aUnslice s a => σ.is a .array ∧ σ.is s .array
-  | .rawCopy dst src => src < σ.n ∧ dst < σ.n ∧ σ.kind dst = σ.kind src ∧ ¬ σ.holds dst
+  | .rawCopy dst src => src < σ.n ∧ dst < σ.n ∧ σ.kind dst = σ.kind src ∧ ¬ σ.holds dst ∧
+      (dst = src ∨ (σ.obj src).self ≠ dst)
 
 instance (σ : State) (op : Op) : Decidable (op.dom σ) := by
   cases op <;> unfold Op.dom <;> exact inferInstance
